@@ -352,6 +352,12 @@ def small_universe(level=1):
     res.append(S([FA(copy.deepcopy(owner), 2), UN([FA(copy.deepcopy(owner), 1), B()])]))
     res.append(S([V(3), B(), V(4), U(16), V(8)]))
     res.append(S([]))
+    # objects of zero size in the LAST position (a window of length zero that starts exactly at the end of the buffer), in the middle and alone
+    res.append(S([U(8), S([])]))
+    res.append(S([VA(U(8), 2), S([], sealed=False)]))
+    res.append(S([U(16), UN([S([]), S([])])]))
+    res.append(S([I(7), FA(S([]), 2)]))
+    res.append(S([S([]), U(8), VA(S([]), 2)]))
     res.append(S([VA(U(8), 255)]))
     res.append(S([VA(U(8), 256)]))
     # capacities below, in the upper half of and next to the top of the 8-bit prefix's range (a check that is "dead" for some of them is dead for none)
